@@ -640,7 +640,7 @@ func S13(tier string, batch bool) *Scenario {
 	}
 	pre = append(pre,
 		Op{Kind: "add_allowed", AID: 0, Bidder: "bid1", Max: "120"},
-		Op{Kind: "add_allowed", AID: 0, Bidder: "bid2", Max: "90"},
+		Op{Kind: "add_allowed", AID: 0, Bidder: "bid2", Max: "110"}, // the preamble's bids stay below both caps: every one is accepted
 	)
 	prices := []string{"2", "3", "1", "2", "1.5"}
 	for i := 0; i < 104; i++ {
